@@ -29,6 +29,23 @@ class UserErrorWithArgs(Exception):
 EXC_CLASSES.append(UserError)
 
 
+class FalsyError(Exception):
+    """An ordinary exception whose instances are falsy."""
+
+    def __bool__(self):
+        return False
+
+
+class EmptyError(Exception):
+    """An ordinary exception with a length of zero."""
+
+    def __len__(self):
+        return 0
+
+
+EXC_CLASSES.extend([FalsyError, EmptyError])
+
+
 class Unconvertible(object):
     """A return value whose conversion fails: its serialisation method raises."""
 
@@ -73,6 +90,12 @@ class Spec(object):
         self.kind = kind      # plain | wraps | bare-wrapper | partial | callable-instance | bound-method
         self._sig = None
 
+    def shared_fault(self):
+        import jsonrpclib
+        if getattr(self, "_fault", None) is None:
+            self._fault = jsonrpclib.Fault(self.behave[1], "shared fault object", data={"why": "not ready"})
+        return self._fault
+
     @property
     def signature(self):
         if self._sig is None:
@@ -103,6 +126,9 @@ class Spec(object):
             return ("raise", TypeError, b[1])
         if b[0] == "unconvertible":
             return ("unconvertible",)
+        if b[0] == "shared-fault":
+            # the library lets a method RETURN a Fault; this one hands out one module-level instance every time
+            return ("fault", b[1])
         if b[0] == "planned":
             # the harness plans each return value before the call (a FIFO for batches)
             return ("return", b[1].popleft())
@@ -118,6 +144,8 @@ class Spec(object):
                 return out[1]
             if out[0] == "unconvertible":
                 return Unconvertible()
+            if out[0] == "fault":
+                return spec.shared_fault()
             exc = out[1](out[2]) if out[2] is not None else out[1]()
             raise exc
 
